@@ -93,6 +93,7 @@ Step(ln) ==
       [] ln.op = "Reverse" -> Reverse(ln.a, ln.b)
       [] ln.op = "Sort" -> Sort(ln.a, ln.b)
       [] ln.op = "SwapContents" -> SwapContents(ln.src)
+      [] ln.op = "SwapContentsRev" -> SwapContentsRev(ln.src)
       [] ln.op = "CopyFrom" -> CopyFrom(ln.src)
       [] ln.op = "Assign" -> Assign(ln.src)
       [] ln.op = "CopyCtor" -> CopyCtor
